@@ -64,7 +64,12 @@ try:
         hl = joincmd(head)
         hl = " ".join(re.findall(r"g\+\+[^\n]*", hl)) if "g++" in hl else hl       # only the compile line(s), not prose
         mentions = lambda f: (f in hl)
-        parts = [demo]
+        # a demo may name the agent's worktree by absolute path inside the source (e.g. #include "/tmp/wt_C13/lib/..."): build a copy pointing at ours
+        demo_src = demo
+        if re.search(r"/tmp/wt_C\d\d(?!_)", src):
+            demo_src = "/tmp/seeddemo_%s_%s_src.cpp" % (name, tag)
+            open(demo_src, "w").write(re.sub(r"/tmp/wt_C\d\d(?!_)", wt, src))
+        parts = [demo_src]
         if mentions("params.cpp") or "g++" not in hl: parts.append("%s/lib/params/params.cpp" % wt)
         if mentions("fastrandombytes.cpp") or "g++" not in hl: parts.append("%s/lib/prng/fastrandombytes.cpp" % wt)
         if re.search(r"(?<!fast)randombytes\.cpp", hl) or "g++" not in hl: parts.append("%s/lib/prng/randombytes.cpp" % wt)
